@@ -62,6 +62,13 @@ pub(crate) fn run() -> Result<(), Error> {
         if changed { "changed" } else { "unchanged" }
     );
     f.set_generated();
+    // What we record here describes output that is not in place yet: the target file is
+    // replaced only when the script has ended and the redo that runs it records the build
+    // (which also records the new stamp).  Until then the old stamp must not vouch for the
+    // old file: otherwise a build that is killed after this point leaves a row that says
+    // "changed (or checked) in this run" next to the unchanged old file, and no later run
+    // ever rebuilds it, no matter which of its sources had changed.
+    f.clear_stamp();
     if changed {
         f.set_changed(ptx.state().env()); // update_stamp might skip this if mtime is identical
         f.set_checksum(csum);
